@@ -18,7 +18,10 @@ void harness_validate(void)
 {
 	vm_install();
 	pfx_table_init(&T, NULL);
+	tl_shape_on = true;
 	struct trie_node *a = tl_template(FAMV, TD, TE);
+
+	tl_shape_on = false;
 	struct trie_node *b = tl_template(OTHV, 0, 1);
 
 	if (FAM == 4) {
